@@ -430,6 +430,20 @@ def secret_rotation_family(W):
                      {"op": "check", "b": "b1", "f": "f1", "kind": "logout", "cookie": "jar"}, browse("b1", "f1", 1),
                      {"op": "secret", "f": "n1", "value": "K8S-SECRET-v3-Lk1Jh4Gf6"}, {"op": "tick", "d": 61}, app("b1", "f1"), app("b2", "f2")]
             res.append({"id": "secretrotation/%s/%s" % (st, "discovery" if disc else "static"), "cfg": {"filters": [f, g, h]}, "steps": steps, "tags": ["secretRotation"]})
+        # the Secret is rotated (and reconciled) while a check is in flight, waiting for the session store: the token request it
+        # makes afterwards is made after the reconcile and carries the new value
+        f = dict(F1, store=st, secretRef="n1")
+        rot = dict(ANS, rotate=True)
+        steps = [{"op": "secret", "f": "n1", "value": "K8S-SECRET-v1-Qw7Er9Ty2"}, browse("b1", "f1", 1),
+                 app("b2", "f1", cookie="none", url=2), {"op": "authz", "b": "b2", "f": "f1"},
+                 {"op": "start", "c": "cb", "b": "b2", "f": "f1", "kind": "callback", "cookie": "jar", "st": "jar", "code": "jar", "qshape": "ok", "ans": dict(ANS)},
+                 {"op": "secret", "f": "n1", "value": "K8S-SECRET-v2-Zx3Cv5Bn8"},
+                 {"op": "finish", "c": "cb", "ans": dict(ANS)}, app("b2", "f1", url=2),
+                 {"op": "tick", "d": 61},
+                 {"op": "start", "c": "rf", "b": "b1", "f": "f1", "kind": "app", "cookie": "jar", "url": 1, "ans": rot},
+                 {"op": "secret", "f": "n1", "value": "K8S-SECRET-v3-Lk1Jh4Gf6"},
+                 {"op": "finish", "c": "rf", "ans": rot}, app("b1", "f1", url=1)]
+        res.append({"id": "secretrotation/%s/inflight" % st, "cfg": {"filters": [f]}, "steps": steps, "tags": ["secretRotation"]})
     return res
 
 
@@ -1441,7 +1455,7 @@ def c19(W, replay=None):
     if not replay:
         thorough = W.tier == "thorough"
         for rc in (1, 2, 3, 4, 5):
-            cfg = cfg_text("Spec", dict(RefCase=rc, Names='{"n1", "n2"}' if not thorough or rc > 2 else '{"n1", "n2", "n3"}', Vals='{"v1", "v2"}', MaxLen=10, Export="TRUE"),
+            cfg = cfg_text("Spec", dict(RefCase=rc, Names='{"n1", "n2"}' if not thorough or rc > 2 else '{"n1", "n2", "n3"}', Vals='{"v1", "v2"}', MaxLen=10, Export="TRUE", Local="FALSE"),
                            ["OnlyReferencing"], view="view", extra="ACTION_CONSTRAINT PrintTransition\n")
             out, viol = W.tlc_exhaustive("SecretSync", cfg, "secretsync-%d" % rc, workers=1, timeout=3000)
             if viol:
@@ -1449,11 +1463,22 @@ def c19(W, replay=None):
             hs = sample(W, W.scenarios_from(out), 6000 if thorough else (700 if rc <= 3 else 150))
             scen += [{"id": "c19/refs%d/%d" % (rc, i), "refs": h["refs"], "events": h["events"]} for i, h in enumerate(hs)]
             # random walks of the same specification: full histories with no-op steps in them
-            cfg = cfg_text("Spec", dict(RefCase=rc, Names='{"n1", "n2"}', Vals='{"v1", "v2"}', MaxLen=14, Export="TRUE"), ["PrintFull"])
+            cfg = cfg_text("Spec", dict(RefCase=rc, Names='{"n1", "n2"}', Vals='{"v1", "v2"}', MaxLen=14, Export="TRUE", Local="FALSE"), ["PrintFull"])
             out, gen, dist, viol, d = W.tlc("SecretSync", cfg, "secretsync-walk-%d" % rc, workers=1, simulate="num=%d" % (2000 if thorough else 250),
                                             extra=["-depth", "14", "-seed", str(W.seed + rc)], timeout=900)
             ws = sample(W, W.scenarios_from(out), 3000 if thorough else 300)
             scen += [{"id": "c19/walk%d/%d" % (rc, i), "refs": h["refs"], "events": h["events"]} for i, h in enumerate(ws)]
+        # every history of one Secret up to a length (no VIEW: histories, not states): what an implementation remembers on its own
+        # (an index, a digest of what it processed) shows only after a particular history
+        for L in ((4, 5, 6, 7) if thorough else (4, 5, 6)):
+            cfg = cfg_text("Spec", dict(RefCase=1, Names='{"n1"}', Vals='{"v1", "v2"}', MaxLen=L, Export="TRUE", Local="TRUE"), ["PrintFull"])
+            out, viol = W.tlc_exhaustive("SecretSync", cfg, "secretsync-all-%d" % L, workers=4, timeout=3000)
+            hs = W.scenarios_from(out)
+            if L >= 6 and not thorough:
+                hs = sample(W, hs, 6000)
+            scen += [{"id": "c19/all%d/%d" % (L, i), "refs": h["refs"], "events": h["events"]} for i, h in enumerate(hs)]
+        # one OAuth client registered for several chains: the filters share the client id as well as the Secret
+        scen += [dict(s_, id=s_["id"].replace("c19/", "c19/sameClient/"), sameClient=True) for s_ in scen if s_["id"].startswith(("c19/refs1/", "c19/refs3/"))][:400]
         # start-up: cross-namespace references are refused, a reference naming the controller's own namespace is not
         ev = [{"op": "set", "name": "n1", "v": "v1"}, {"op": "reconcile", "name": "n1", "v": ""}]
         scen += [{"id": "c19/startup/cross-ns-first", "refs": ["n1", "lit", "n2"], "refNs": ["other", "", ""], "crossNs": True, "events": ev},
